@@ -3,6 +3,7 @@ package interp
 // Environment models and harness intrinsics. Keys are ssa.Function.String().
 
 import (
+	"bytes"
 	"fmt"
 	"go/token"
 	"go/types"
@@ -393,31 +394,131 @@ func modelRawHash(fr *frame, a []value) value {
 
 // hashOf implements the injective-hash abstraction.
 func (ps *pathState) hashOf(in []value) [32]byte {
-	if b, ok := allConcreteBytes(in); ok {
-		return sha3.Sum256(b)
+	cb, conc := allConcreteBytes(in)
+	if conc {
+		if out, ok := ps.concHash[string(cb)]; ok {
+			return out
+		}
 	}
 	snapshot := make([]value, len(in))
 	copy(snapshot, in)
-	for i := range ps.hashes {
+	// compare with every earlier input of this length that is not byte-for-byte decided already:
+	// a symbolic input against symbolic and concrete ones, a concrete input against symbolic ones
+	for _, i := range ps.hashByLen[len(in)] {
 		e := &ps.hashes[i]
-		if len(e.in) != len(snapshot) {
+		if conc && e.cb != nil {
+			continue
+		}
+		if e.cb != nil {
+			if concreteMismatchB(e.cb, snapshot) {
+				continue
+			}
+			if e.in == nil {
+				e.in = bytesToValues(e.cb)
+			}
+		} else if concreteMismatch(e.in, snapshot) {
 			continue
 		}
 		eq := bytesEqTerm(e.in, snapshot)
 		if b, ok := eq.(bool); ok {
-			if b {
-				return e.out
+			if !b {
+				continue
 			}
+		} else if !ps.decideBool(eq.(sym).t, fmt.Sprintf("hash#%d=%d", len(ps.hashes), i)) {
 			continue
 		}
-		if ps.decideBool(eq.(sym).t, fmt.Sprintf("hash#%d=%d", len(ps.hashes), i)) {
-			return e.out
+		if conc {
+			ps.concHash[string(cb)] = e.out
+		}
+		return e.out
+	}
+	if ps.absHashes == nil {
+		ps.absHashes = map[[32]byte]bool{}
+		ps.concHash = map[string][32]byte{}
+		ps.hashByLen = map[int][]int{}
+	}
+	var out [32]byte
+	if conc {
+		out = sha3.Sum256(cb)
+		// a real hash of bytes that embed an abstract hash value is itself abstract
+		for h := range ps.absHashes {
+			if bytes.Contains(cb, h[:]) {
+				ps.absHashes[out] = true
+				break
+			}
+		}
+		ps.concHash[string(cb)] = out
+		ps.hashes = append(ps.hashes, hashEntry{cb: cb, out: out})
+	} else {
+		ps.tokenCtr++
+		out = sha3.Sum256([]byte(fmt.Sprintf("symgo-token-%d", ps.tokenCtr)))
+		ps.absHashes[out] = true
+		ps.hashes = append(ps.hashes, hashEntry{in: snapshot, out: out})
+		ps.symHashes++
+	}
+	ps.hashByLen[len(in)] = append(ps.hashByLen[len(in)], len(ps.hashes)-1)
+	return out
+}
+
+// concreteMismatch reports whether a and b differ at a position where both are concrete.
+func concreteMismatch(a, b []value) bool {
+	for i := range a {
+		if x, ok := a[i].(uint8); ok {
+			if y, ok := b[i].(uint8); ok && x != y {
+				return true
+			}
 		}
 	}
-	ps.tokenCtr++
-	tok := sha3.Sum256([]byte(fmt.Sprintf("symgo-token-%d", ps.tokenCtr)))
-	ps.hashes = append(ps.hashes, hashEntry{in: snapshot, out: tok})
-	return tok
+	return false
+}
+
+func concreteMismatchB(a []byte, b []value) bool {
+	for i := range a {
+		if y, ok := b[i].(uint8); ok && a[i] != y {
+			return true
+		}
+	}
+	return false
+}
+
+// noteTokenEq records the symbolic equality eq of the byte sequences a and b when it compares a
+// symbolic byte with a byte of an abstract hash value (a 32-byte concrete window of the other
+// side that is a token or a real hash derived from one). A model that makes such an equality
+// true fixes an input byte to a token byte, which says nothing about the real SHA3 value.
+func (ps *pathState) noteTokenEq(a, b []value, eq *smt.Term) {
+	if len(ps.absHashes) == 0 || len(a) != len(b) || len(a) < 32 {
+		return
+	}
+	touches := func(conc, other []value) bool {
+		// run[i] = number of consecutive concrete bytes of conc ending at i
+		run := 0
+		var w [32]byte
+		for i := range conc {
+			if _, ok := conc[i].(uint8); ok {
+				run++
+			} else {
+				run = 0
+			}
+			if run < 32 {
+				continue
+			}
+			o := i - 31
+			anySym := false
+			for k := 0; k < 32; k++ {
+				w[k] = conc[o+k].(uint8)
+				if isSym(other[o+k]) {
+					anySym = true
+				}
+			}
+			if anySym && ps.absHashes[w] {
+				return true
+			}
+		}
+		return false
+	}
+	if touches(a, b) || touches(b, a) {
+		ps.tokenEqs = append(ps.tokenEqs, eq)
+	}
 }
 
 // ---------------------------------------------------------------- helpers for models
